@@ -105,11 +105,11 @@ Proof.
   assert (T + dsum vals ups - lsum vals dels <= max_total_voting_power) as Hcap'.
   { rewrite total_after_updates_dsum in Hcap. fold vals T in Hcap.
     assert (Permutation (filter (fun c => 0 <? v_power c) cs) ups) as PF.
-    { rewrite Eu. etransitivity; [apply permutation_filter, Permutation_sym, sort_by_perm|].
+    { rewrite Eu. etransitivity; [apply permutation_filter, Permutation_sym, (sort_by_perm addr_lt cs)|]. fold scs.
       erewrite filter_ext_in; [reflexivity|]. intros c Hc. specialize (Pscs c Hc). cbn beta.
       destruct (Z.ltb_spec 0 (v_power c)), (Z.eqb_spec (v_power c) 0); cbn; try reflexivity; lia. }
     assert (Permutation (filter (fun c => v_power c =? 0) cs) dels) as PD.
-    { rewrite Ed. apply permutation_filter, Permutation_sym, sort_by_perm. }
+    { rewrite Ed. apply permutation_filter, Permutation_sym, (sort_by_perm addr_lt cs). }
     rewrite (dsum_perm vals _ _ PF), (lsum_perm vals _ _ PD) in Hcap. lia. }
   (* removals *)
   unfold verify_removals. destruct (removed_power dels vals 0) as [removed ok] eqn:RP.
